@@ -216,12 +216,12 @@ CHECKS = {
             "covers": {"VerifC01Log": ["converged"]},
         }],
         "assumptions": [
-            "two writers (real stores built by InitBaseStore over a shared block store) produce a history of STEPS steps, each a local write with symbolic key/value or a real head exchange (Sync -> replicator -> ipfs-log fetcher -> Join) in either direction, in any order; then both exchange heads and a fresh replica receives everything in one batch",
+            "two writers (real stores built by InitBaseStore over a shared block store) produce a history of STEPS steps, each a local write with symbolic key/value or a real head exchange (Sync -> replicator -> ipfs-log fetcher -> Join) in either direction, in any order; then both exchange heads and a fresh replica receives everything by one of three routes: manual sync in one batch, load from the writer's disk (cache heads + blocks, real Load), or a snapshot saved by the writer (real SaveSnapshot / LoadFromSnapshot)",
             "the real ipfs-log Append/Join/traverse/sorting run in the interpreter; IPFS is a content-addressed block store stub with perfect hashing; identities use perfect symbolic signatures",
             "oracle: identical ordered hash lists and identical views on all three replicas; the view equals the replay of the replica's own log",
             "distinct entries never share (Lamport time, writer key): holds by construction (each identity writes through one live store)",
         ],
-        "outside": ["more than two writers / longer histories", "routes Load-from-cache and snapshot are decided in C05/C15/C13 harnesses", "Go map iteration orders other than insertion order", "byte-level JSON/CBOR"],
+        "outside": ["more than two writers / longer histories", "Go map iteration orders other than insertion order", "byte-level JSON/CBOR"],
     },
     "C15": {
         "groups": [{
